@@ -31,8 +31,48 @@ type world struct {
 	notes   []string
 	side    []string // non-canonical facts (timestamps, deadlines) written as comment lines
 	extra   []string // derived tokens appended to the op line in the trace (hashes)
-	slow    []func() // pending slow uploads (second halves)
+	slow    []slowUpload // pending slow uploads (second halves)
 	nslow   int
+	callers []int // caller numbers of the invocations submitted so far
+}
+
+type slowUpload struct {
+	finish func()
+	tied   bool // made by the runtime process itself: a stalled runtime stays stalled
+}
+
+// traceFor is the X-Amzn-Trace-Id value caller c sends. The shape varies with c: canonical; with a
+// Lineage field; Self first and neither Parent nor Sampled; fields reordered; no Sampled; no Root.
+// Extensions must see exactly this value.
+func traceFor(c int) string {
+	root := fmt.Sprintf("Root=1-5e1b4151-%024d", c)
+	switch c % 6 {
+	case 1:
+		return root + ";Parent=53995c3f42cd8ad8;Sampled=1;Lineage=a87bd80c:0"
+	case 2:
+		return "Self=1-5e1b4152-000000000000000000000001;" + root
+	case 3:
+		return "Sampled=0;Parent=53995c3f42cd8ad8;" + root
+	case 4:
+		return root + ";Parent=53995c3f42cd8ad8"
+	case 5:
+		return fmt.Sprintf("Parent=%016d;Sampled=1", c)
+	}
+	return root + ";Parent=53995c3f42cd8ad8;Sampled=1"
+}
+
+// traceClass: "trace<c>" if the value is exactly what caller c sent ("trace" for caller 0), else the
+// value itself marked as altered
+func (w *world) traceClass(v string) string {
+	for _, c := range w.callers {
+		if v == traceFor(c) {
+			if c == 0 {
+				return "trace"
+			}
+			return "trace" + strconv.Itoa(c)
+		}
+	}
+	return "trace!" + strings.ReplaceAll(v, " ", "_")
 }
 
 func (w *world) settle() bool {
@@ -124,7 +164,8 @@ func (w *world) apply(ws []string) bool {
 		if size > interop.MaxPayloadSize {
 			w.extra = []string{"h=" + hashOf(pl[:interop.MaxPayloadSize])}
 		}
-		s.Invoke(c, pl, fmt.Sprintf("Root=1-5e1b4151-%024d;Parent=53995c3f42cd8ad8;Sampled=1", c))
+		w.callers = append(w.callers, c)
+		s.Invoke(c, pl, traceFor(c))
 	case "init":
 		s.Init()
 	case "hook": // hook <point> <delay-ms>   (0 disarms)
@@ -214,10 +255,7 @@ func (w *world) apply(ws []string) bool {
 						}
 						tr := "-"
 						if t, ok := m["tracing"].(map[string]any); ok {
-							tr = fmt.Sprint(t["value"])
-							if i := strings.Index(tr, "Root=1-5e1b4151-"); i >= 0 {
-								tr = "trace" + strings.TrimLeft(tr[i+16:i+40], "0")
-							}
+							tr = w.traceClass(fmt.Sprint(t["value"]))
 						}
 						dl, _ := m["deadlineMs"].(float64)
 						s.L.Add("#deadline ext %s %s %d", name, s.Alias(fmt.Sprint(m["requestId"])), int64(dl))
@@ -244,6 +282,15 @@ func (w *world) apply(ws []string) bool {
 			return false
 		}
 	case "rt":
+		if ws[1] == "finish" { // complete the oldest slow upload (the sender need not be alive as a process of the environment)
+			if len(w.slow) == 0 {
+				return false
+			}
+			f := w.slow[0]
+			w.slow = w.slow[1:]
+			go f.finish()
+			return true
+		}
 		p := w.procFor("rt")
 		if p == nil {
 			return false
@@ -279,27 +326,35 @@ func (w *world) apply(ws []string) bool {
 			w.extra = []string{"h=" + hashOf(stack.Payload(size, ws[4], 7))}
 			s.Do(stack.CallSpec{Actor: "rt", What: "response", Method: "POST", Path: rtAPI + "/runtime/invocation/" + id + "/response", Headers: hdr,
 				Body: stack.Payload(size, ws[4], 7), Proc: p})
-		case "slowresponse": // slowresponse <idref> <size> <fill>: headers and the first half of the body now, the rest on `rt finish`
+		case "slowresponse": // slowresponse <idref> <size> <fill> [tied]: headers and the first half of the body now, the rest on `rt finish`
+			// tied: the upload is made by the runtime process itself and dies with it; otherwise by a sender that outlives it
+			var slowProc *stack.Proc
+			if len(ws) > 5 && ws[5] == "tied" {
+				slowProc = p
+			}
 			size, _ := strconv.Atoi(ws[3])
 			id := s.Unalias(ws[2])
 			body := stack.Payload(size, ws[4], 7)
 			s.L.Add("#posted response %s %s", ws[2], hashOf(body))
 			w.extra = []string{"h=" + hashOf(body)}
 			pr, pw := io.Pipe()
-			w.slow = append(w.slow, func() { _, _ = pw.Write(body[len(body)/2:]); pw.Close() })
+			w.slow = append(w.slow, slowUpload{func() { _, _ = pw.Write(body[len(body)/2:]); pw.Close() }, slowProc != nil})
 			go func() { _, _ = pw.Write(body[:len(body)/2]) }()
 			w.nslow++
 			s.Do(stack.CallSpec{Actor: "rt", What: fmt.Sprintf("slowresponse#%d", w.nslow), Method: "POST", Path: rtAPI + "/runtime/invocation/" + id + "/response",
 				// the upload is not tied to the life of the runtime process: a sender that outlives it (a forked
 				// helper, bytes still in flight) is what makes a submission arrive after the reset
-				Headers: map[string]string{"Content-Type": "application/octet-stream"}, BodyReader: pr, Proc: nil})
-		case "finish": // complete the oldest slow upload
-			if len(w.slow) == 0 {
-				return false
-			}
-			f := w.slow[0]
-			w.slow = w.slow[1:]
-			go f()
+				Headers: map[string]string{"Content-Type": "application/octet-stream"}, BodyReader: pr, Proc: slowProc})
+		case "slowerror": // slowerror <idref> <type>: as slowresponse, for the error endpoint (its handler reads the whole body first)
+			id := s.Unalias(ws[2])
+			body := []byte(fmt.Sprintf(`{"errorMessage":"%s","errorType":"%s"}`, strings.Repeat("m", 3000), ws[3]))
+			s.L.Add("#posted error %s %s", ws[2], hashOf(body))
+			pr, pw := io.Pipe()
+			w.slow = append(w.slow, slowUpload{func() { _, _ = pw.Write(body[len(body)/2:]); pw.Close() }, false})
+			go func() { _, _ = pw.Write(body[:len(body)/2]) }()
+			w.nslow++
+			s.Do(stack.CallSpec{Actor: "rt", What: fmt.Sprintf("slowerror#%d", w.nslow), Method: "POST", Path: rtAPI + "/runtime/invocation/" + id + "/error",
+				Headers: map[string]string{"Lambda-Runtime-Function-Error-Type": ws[3], "Content-Type": "application/json"}, BodyReader: pr, Proc: nil})
 		case "error": // error <idref> <type> <size>
 			size := 20
 			if len(ws) > 4 {
